@@ -14,7 +14,7 @@ import (
 func init() {
 	register(&Spec{ID: "C01", Title: "Outgoing messages are well-formed TDS packet sequences", Run: runC01,
 		Meta: core.Meta{
-			Explanation: "R01.21 (who-may-call): PacketQueue.AddPacket is called by Channel.WritePacket only. R01.20 = R15.14 (WriteUintK/WriteIntK/WriteString never index the queue themselves: a value that straddles a packet end is split by WriteBytes, once). R01.19 (who-may-call): PacketQueue.SetPosition is called by Channel.WritePacket (and PacketQueue itself) only. R01.18 = R08.8 (every PACKSIZE member of an ENVCHANGE is tested, and from the test every path to the next member stores Conn.packetSize or returns an error — no announced size is silently ignored). R01.17: every image Packet.Bytes returns is a slice made with Header.Length elements. Structural necessary conditions of well-formed packetisation; the numeric quantification (every length x packet size x call split) is not decided. R01.1 (E-OWN): the transport Conn.conn is referenced in exactly four roles — initialised in NewConn, closed in Conn.Close, reader argument of Packet.ReadFrom in Conn.ReadFrom, writer argument of Packet.WriteTo in sendPacket; any other use bypasses packetisation. R01.2: in sendPacket the write is dominated by Header.MsgType := CurrentHeaderType; the end-of-message flag is set exactly on the edge where len(packet.Data) differs from the LIVE Conn.PacketBodySize() (a call, not a cached value) by or-ing TDS_BUFSTAT_EOM into Header.Status before the write; the byte count returned by the write is compared with Header.Length. R01.3: NewPacket sets Header.Length = size and Data = make(size-8); the trim in sendPackets stores Header.Length = PacketHeaderSize + k and Data = Data[:k] for the same k (the tx queue's indexData). R01.4: in sendPackets the partial-packet test is `i == indexPacket && indexData < PacketBodySize()` with a strict comparison against the live body size; the early `return nil` lies on its onlyFull edge, the trim on the other; the deferred DiscardUntilCurrentPosition runs on every exit. R01.5: SendRemainingPackets calls sendPackets(ctx, false) under the closed protocol and resets the channel on every exit (C03 R03.4). R01.6: the flush reaches its success return only through at least one sendPacket call (path-insensitive on the loop). R01.7: Packet.WriteTo hands the whole serialised packet (packet.Bytes()) to the transport in exactly one Write call on every path — all channels share the transport without a send lock, so one Write per packet is what keeps packets of different channels from interleaving. R01.8: the tx side (header type, tx queue, lastPkgTx) is restored on every exit of SendRemainingPackets, also when the flush fails. R01.10 = R15.7: the deferred DiscardUntilCurrentPosition drops the packet under the position when indexData has reached (>= or ==, not >) the end of its body, after the queue was shifted — otherwise a message that ends exactly on a packet boundary is sent twice. R01.11 = R12.3 (channel id and packet number stamped, the number advanced by one modulo 256). R01.12 = R15.6 (WriteBytes computes the room left in a packet from that packet's own header length and body, never from the live packet size: a shortcut that compares with packetSize() instead of the body size drops the bytes that overhang). R01.13 (E-OWN): every store to Channel.CurrentHeaderType assigns a TDS_BUF_* constant (never a saved or computed value). R01.14 = R14.12 (after a failed sendPacket no further packet of the message is written and the error is returned). R01.15: PacketHeader.Read and PacketHeader.Write place/take MsgType, Status, Length, Channel, PacketNr, Window at offsets 0, 1, 2, 4, 6, 7 (compared with the specification, not with each other). R01.16 (E-OWN): no function statically reachable from (*Conn).ReadFrom stores CurrentHeaderType or lastPkgTx or calls a method of queueTx. R01.9: sendPackets/sendPacket decide 'full' and 'last' with Conn.PacketBodySize() while the tx queue sizes new packets with its packetSize function; both must be the one negotiated size: (*Conn).PacketSize returns Conn.packetSize itself on every path, PacketBodySize returns that value minus PacketHeaderSize, every value stored into Channel.queueTx is NewPacketQueue(<conn>.PacketSize) (the bound method of the channel's connection, or a function literal that only returns that call), and PacketQueue.packetSize is assigned only by NewPacketQueue from its parameter.",
+			Explanation: "R01.22 (who-may-call): Channel.sendPacket is called by sendPackets, Close (teardown) and NewChannel (setup) only. R01.21 (who-may-call): PacketQueue.AddPacket is called by Channel.WritePacket only. R01.20 = R15.14 (WriteUintK/WriteIntK/WriteString never index the queue themselves: a value that straddles a packet end is split by WriteBytes, once). R01.19 (who-may-call): PacketQueue.SetPosition is called by Channel.WritePacket (and PacketQueue itself) only. R01.18 = R08.8 (every PACKSIZE member of an ENVCHANGE is tested, and from the test every path to the next member stores Conn.packetSize or returns an error — no announced size is silently ignored). R01.17: every image Packet.Bytes returns is a slice made with Header.Length elements. Structural necessary conditions of well-formed packetisation; the numeric quantification (every length x packet size x call split) is not decided. R01.1 (E-OWN): the transport Conn.conn is referenced in exactly four roles — initialised in NewConn, closed in Conn.Close, reader argument of Packet.ReadFrom in Conn.ReadFrom, writer argument of Packet.WriteTo in sendPacket; any other use bypasses packetisation. R01.2: in sendPacket the write is dominated by Header.MsgType := CurrentHeaderType; the end-of-message flag is set exactly on the edge where len(packet.Data) differs from the LIVE Conn.PacketBodySize() (a call, not a cached value) by or-ing TDS_BUFSTAT_EOM into Header.Status before the write; the byte count returned by the write is compared with Header.Length. R01.3: NewPacket sets Header.Length = size and Data = make(size-8); the trim in sendPackets stores Header.Length = PacketHeaderSize + k and Data = Data[:k] for the same k (the tx queue's indexData). R01.4: in sendPackets the partial-packet test is `i == indexPacket && indexData < PacketBodySize()` with a strict comparison against the live body size; the early `return nil` lies on its onlyFull edge, the trim on the other; the deferred DiscardUntilCurrentPosition runs on every exit. R01.5: SendRemainingPackets calls sendPackets(ctx, false) under the closed protocol and resets the channel on every exit (C03 R03.4). R01.6: the flush reaches its success return only through at least one sendPacket call (path-insensitive on the loop). R01.7: Packet.WriteTo hands the whole serialised packet (packet.Bytes()) to the transport in exactly one Write call on every path — all channels share the transport without a send lock, so one Write per packet is what keeps packets of different channels from interleaving. R01.8: the tx side (header type, tx queue, lastPkgTx) is restored on every exit of SendRemainingPackets, also when the flush fails. R01.10 = R15.7: the deferred DiscardUntilCurrentPosition drops the packet under the position when indexData has reached (>= or ==, not >) the end of its body, after the queue was shifted — otherwise a message that ends exactly on a packet boundary is sent twice. R01.11 = R12.3 (channel id and packet number stamped, the number advanced by one modulo 256). R01.12 = R15.6 (WriteBytes computes the room left in a packet from that packet's own header length and body, never from the live packet size: a shortcut that compares with packetSize() instead of the body size drops the bytes that overhang). R01.13 (E-OWN): every store to Channel.CurrentHeaderType assigns a TDS_BUF_* constant (never a saved or computed value). R01.14 = R14.12 (after a failed sendPacket no further packet of the message is written and the error is returned). R01.15: PacketHeader.Read and PacketHeader.Write place/take MsgType, Status, Length, Channel, PacketNr, Window at offsets 0, 1, 2, 4, 6, 7 (compared with the specification, not with each other). R01.16 (E-OWN): no function statically reachable from (*Conn).ReadFrom stores CurrentHeaderType or lastPkgTx or calls a method of queueTx. R01.9: sendPackets/sendPacket decide 'full' and 'last' with Conn.PacketBodySize() while the tx queue sizes new packets with its packetSize function; both must be the one negotiated size: (*Conn).PacketSize returns Conn.packetSize itself on every path, PacketBodySize returns that value minus PacketHeaderSize, every value stored into Channel.queueTx is NewPacketQueue(<conn>.PacketSize) (the bound method of the channel's connection, or a function literal that only returns that call), and PacketQueue.packetSize is assigned only by NewPacketQueue from its parameter.",
 			NotDecided:  "Byte-exact concatenation of bodies, 'every packet but the last is full' as arithmetic and packet-size changes between messages are not decided.",
 			Assumptions: []string{"Packet.WriteTo serialises header then data (C15 / packet.go)", "channel id and packet number stamping is C12's R12.3"},
 		}})
@@ -47,7 +47,7 @@ func runC01(r *core.Run) {
 	r.Rule("R01.16", "the transmit side of a channel is written by the sending goroutine only", 1, false)
 	defer c01TxOwnership(r)
 	r.Rule("R01.17", "the wire image of a packet has exactly Header.Length bytes", 1, false)
-	defer c01PacketImage(r)
+	defer c01PacketImage(r, "R01.17")
 	r.Rule("R01.18", "the packet size in force is the one the server announced: a PACKSIZE member sets Conn.packetSize or fails (R08.8)", 2, false)
 	defer packSizeEveryMember(r, "R01.18")
 	r.Rule("R01.19", "SetPosition is the rollback of a failed receive attempt only (never an undo on the transmit queue)", 1, false)
@@ -56,6 +56,12 @@ func runC01(r *core.Run) {
 	defer c15TypedThroughBytes(r, "R01.20")
 	r.Rule("R01.21", "packets enter the transmit queue through WriteBytes only (AddPacket is the receive path)", 1, false)
 	defer addPacketOwner(r, "R01.21")
+	r.Rule("R01.22", "packets reach the transport through the queue: sendPacket is called by sendPackets, Close and NewChannel only", 3, false)
+	defer func() {
+		p := r.Prog
+		callersOf(r, "R01.22", p.Func("tds", "Channel", "sendPacket"), map[*ssa.Function]bool{p.Func("tds", "Channel", "sendPackets"): true, p.Func("tds", "Channel", "Close"): true, p.Func("tds", "Conn", "NewChannel"): true},
+			"queue flush / teardown / setup", "a packet built outside the transmit queue (NewPacket with its body cut to nil keeps Header.Length at the full size) goes out zero-padded, so the message carries a body of zeros that belongs to no package")
+	}()
 
 	fConn := p.Field("tds", "Conn", "conn")
 	roles := map[*ssa.Function]string{
@@ -131,7 +137,7 @@ func runC01(r *core.Run) {
 		}
 	}
 
-	c01SendPacket(r)
+	c01SendPacket(r, "R01.2")
 	c01Coupling(r)
 	c01SendPackets(r, "R01.4")
 	c01SingleWrite(r, "R01.7")
@@ -156,7 +162,7 @@ func isLenOf(v ssa.Value, field *types.Var) bool {
 	return f == field
 }
 
-func c01SendPacket(r *core.Run) {
+func c01SendPacket(r *core.Run, rule string) {
 	p := r.Prog
 	fn := p.Func("tds", "Channel", "sendPacket")
 	pwrite := p.Func("tds", "Packet", "WriteTo")
@@ -168,7 +174,7 @@ func c01SendPacket(r *core.Run) {
 	cEOM := constOf(p, "tds", "TDS_BUFSTAT_EOM")
 	calls := callsTo(fn, pwrite)
 	if len(calls) != 1 {
-		r.Unknown("R01.2", "sendPacket: single transport write", fn.Pos(), "expected exactly one Packet.WriteTo call")
+		r.Unknown(rule, "sendPacket: single transport write", fn.Pos(), "expected exactly one Packet.WriteTo call")
 		return
 	}
 	w := calls[0].(ssa.Instruction)
@@ -185,7 +191,7 @@ func c01SendPacket(r *core.Run) {
 			}
 		}
 	}
-	r.Check(ok, "R01.2", "sendPacket: Header.MsgType := CurrentHeaderType", fn.Pos(), "stored before the write on every path", "the packet's message type is not set from the channel's current header type before it is written")
+	r.Check(ok, rule, "sendPacket: Header.MsgType := CurrentHeaderType", fn.Pos(), "stored before the write on every path", "the packet's message type is not set from the channel's current header type before it is written")
 
 	// EOM
 	okEOM, whyEOM := false, "no test of len(packet.Data) against PacketBodySize() guarding the EOM flag"
@@ -257,7 +263,7 @@ func c01SendPacket(r *core.Run) {
 			}
 		}
 	}
-	r.Check(okEOM, "R01.2", "sendPacket: EOM exactly on packets shorter than the live body size", fn.Pos(), "len(Data) != PacketBodySize() → Status |= TDS_BUFSTAT_EOM, before the write", whyEOM)
+	r.Check(okEOM, rule, "sendPacket: EOM exactly on packets shorter than the live body size", fn.Pos(), "len(Data) != PacketBodySize() → Status |= TDS_BUFSTAT_EOM, before the write", whyEOM)
 
 	// written length check
 	okLen := false
@@ -284,7 +290,7 @@ func c01SendPacket(r *core.Run) {
 			}
 		}
 	}
-	r.Check(okLen, "R01.2", "sendPacket: written byte count compared with Header.Length", fn.Pos(), "n != Header.Length → error", "a short write to the transport is not detected")
+	r.Check(okLen, rule, "sendPacket: written byte count compared with Header.Length", fn.Pos(), "n != Header.Length → error", "a short write to the transport is not detected")
 }
 
 func c01Coupling(r *core.Run) {
